@@ -1443,9 +1443,10 @@ class GroupBy:
 
         # TODO: allow a target vector
         results = parallel_map(func, arg_list)
+        # one result per non-empty group and value (empty groups are not called)
+        n_called = len(results) // len(value_list)
         results_per_value = [
-            results[i * self.ngroups : (i + 1) * self.ngroups]
-            for i in range(len(value_list))
+            results[i * n_called : (i + 1) * n_called] for i in range(len(value_list))
         ]
         result_col_names = self._col_names_from_value_names(value_names)
 
